@@ -3,7 +3,7 @@
    proofs as in the C01 package, Sem/LibProofs.v).  Methods with callbacks: the two programs apply
    closures with different fuel and the optimized one may be inexact where the other is exact, so
    the combinators are related in the weaker sense [wrel], for decided left-hand sides. *)
-From P2 Require Import Base.Prelude Base.PreludeProofs Sem.Num Sem.Syntax Sem.Ops Sem.Lib Sem.Ref Sem.Gen Sem.Opt Sem.OptRel Sem.OptRelProofs Sem.OptOpsProofs.
+From P2 Require Import Base.Prelude Base.PreludeProofs Sem.Num Sem.Syntax Sem.Ops Sem.Lib Sem.Ref Sem.Gen Sem.Sim Sem.RelProofs Sem.Opt Sem.OptRel Sem.OptRelProofs Sem.OptOpsProofs.
 Require Import Lia.
 Local Open Scope Z_scope.
 
